@@ -100,7 +100,7 @@ class BasedRule(Rule):
 
     @cached_property
     def defines_single(self) -> list[str]:
-        return list(set(super().defines_single) | set(self.exp.defines_single))
+        return list(set(super().defines_single) | set(self.rhs.defines_single))
 
     @cached_property
     def defines_list(self) -> list[str]:
